@@ -120,7 +120,7 @@ pub fn c11x_bulk_chain() {
     let val: u8 = kani::any();
     let cnt = any_len(3);
     let op: u8 = kani::any();
-    kani::assume(op < 3);
+    kani::assume(op < 4);
     let wrote;
     let tail;
     {
@@ -129,6 +129,19 @@ pub fn c11x_bulk_chain() {
         let mut w = a.chain_mut(b);
         check_mut_state(&mut w, cap);
         match op {
+            3 => {
+                // advance_mut by itself, by any amount up to remaining_mut() (the memory is initialised): an amount that crosses
+                // the a/b boundary takes all of a and the rest - not the whole amount - out of b
+                let k = any_len(5);
+                kani::assume(k <= cap);
+                unsafe { w.advance_mut(k) };
+                let in_a = if k < split { k } else { split };
+                assert!(w.first_ref().len() == split - in_a);
+                assert!(w.last_ref().len() == (cap - split) - (k - in_a));
+                assert!(w.remaining_mut() == cap - k);
+                kani::cover!(split > 0 && k > split, "advance_mut across the boundary");
+                return;
+            }
             0 => {
                 kani::assume(sl <= cap);
                 w.put_slice(&src[..sl]);
